@@ -250,7 +250,13 @@ func R28() Rule {
 								sorted := false
 								for _, call := range callsTo(fn, "sort", "Sort") {
 									if core.InstrReaches(st, call) {
-										if mi, ok := call.Call.Args[0].(*ssa.MakeInterface); ok && core.TypeIs(mi.X.Type(), core.PkgBttest, "byDescTS") {
+										// the sort order is the descending-timestamp comparator: the receiver type of the
+										// (possibly renamed) byDescTS.Less anchor, checked for direction in part (b)
+										descT := types.Type(nil)
+										if lf := P.Func(core.PkgBttest, "byDescTS.Less"); lf != nil && lf.Signature.Recv() != nil {
+											descT = lf.Signature.Recv().Type()
+										}
+										if mi, ok := call.Call.Args[0].(*ssa.MakeInterface); ok && descT != nil && types.Identical(mi.X.Type(), descT) {
 											sorted = true
 										}
 									}
